@@ -148,6 +148,12 @@ impl ThreadPool {
                 .take(self.thread_count.get())
                 .unzip();
 
+        // The task closure borrows from the caller (`'f`) but is handed to the worker threads as
+        // `'static` below. That is only sound if we never leave this function - not even by
+        // unwinding - while a worker may still be running it. This guard owns the receivers of
+        // the results that are still outstanding and waits for them if it is dropped early.
+        let mut pending_results = PendingResults(result_rxs);
+
         for tx in &self.command_txs {
             // Since we guarantee that we wait for all the work to complete, the `F` does not actually
             // have to be 'static - the type system just requires that because Rust has no
@@ -185,14 +191,38 @@ impl ThreadPool {
             .expect("worker thread must still exist - thread pool cannot operate without workers");
         }
 
-        for rx in result_rxs {
-            results.push(
-                rx.recv()
-                    .expect("worker thread failed to send result - did it panic?"),
-            );
+        // Wait for every worker before reporting any failure - a worker that failed must not
+        // cause us to unwind while the other workers are still executing the borrowed closure.
+        let mut all_workers_succeeded = true;
+
+        for rx in pending_results.0.drain(..) {
+            match rx.recv() {
+                Ok(result) => results.push(result),
+                Err(_) => all_workers_succeeded = false,
+            }
         }
 
+        assert!(
+            all_workers_succeeded,
+            "worker thread failed to send result - did it panic?"
+        );
+
         results.into_boxed_slice()
+    }
+}
+
+/// Receivers for the task results that have not been received yet.
+///
+/// Dropping this waits for every outstanding result (or for the worker to give up on sending
+/// it), which guarantees that no worker is still executing a task when the guard is gone.
+struct PendingResults<R>(Vec<oneshot::Receiver<R>>);
+
+impl<R> Drop for PendingResults<R> {
+    fn drop(&mut self) {
+        for rx in self.0.drain(..) {
+            // We only care that the worker is done with the task, not about the outcome.
+            drop(rx.recv());
+        }
     }
 }
 
